@@ -110,6 +110,9 @@ func (ex *Exec) storeAny(st *State, fr *Frame, op ssa.Value, p Value, v Value) b
 			return false
 		}
 		ex.recordAccess(st, fr, x, true)
+		if st.trackInfo != nil {
+			ex.trackNew(st, x, v)
+		}
 		st.store(x, v)
 		return true
 	case SymPtr:
